@@ -247,7 +247,8 @@ class InputsToDict(FromManyInputs, ABC):
                 return False
             if isinstance(x, tuple):
                 return len(x) == len(y) and all(map(same, x, y))
-            return isinstance(x, (int, float, complex, str, bytes)) and x == y
+            # `==` is too coarse for numbers: 0.0 == -0.0 (and nan != nan)
+            return isinstance(x, (int, float, complex, str, bytes)) and repr(x) == repr(y)
 
         if isinstance(a, list) or isinstance(b, list):
             return isinstance(a, list) and isinstance(b, list) and a == b
